@@ -1215,7 +1215,7 @@ pub fn property() -> Property {
             PropSub {
                 name: "random",
                 strategy: rand_strategy,
-                cases: |t| t.pick(600_000, 10_000_000),
+                cases: |t| t.pick(1_500_000, 10_000_000),
                 run: run_random,
                 floors: &[
                     ("all-accepted", 0.3), ("some-rejected", 0.15), ("rsync", 0.2), ("https", 0.2), ("common-module", 0.4),
